@@ -455,6 +455,15 @@ func (qz *quantizer) prov(v ssa.Value, d int) string {
 						return qz.prov(prm, d+1)
 					}
 				}
+				switch st.Val.(type) {
+				case *ssa.Extract, *ssa.Call:
+					// a struct result kept in a local: the literal the helper returns, when it resolves
+					if _, stt := namedStruct(st.Val.Type()); stt != nil {
+						if pv := qz.prov(st.Val, d+1); strings.HasPrefix(pv, "&{") {
+							return pv
+						}
+					}
+				}
 			}
 		}
 		// a struct literal: its field stores
@@ -548,7 +557,8 @@ func (qz *quantizer) retProv(c *ssa.Call, k int) (string, bool) {
 				}
 			}
 		}
-		if !structLit && !(qz.seeInts && qz.p.InModule(callee) && len(callee.Blocks) > 0 && isIntType(res.At(k).Type())) {
+		_, structRes := namedStruct(res.At(k).Type())
+		if !structLit && !(qz.seeInts && qz.p.InModule(callee) && len(callee.Blocks) > 0 && (isIntType(res.At(k).Type()) || structRes != nil)) {
 			return "", false
 		}
 	}
@@ -582,6 +592,11 @@ func (qz *quantizer) retProv(c *ssa.Call, k int) (string, bool) {
 		}
 		if _, isConst := ret.Results[k].(*ssa.Const); isConst {
 			continue
+		}
+		if last := res.Len() - 1; last > k && isBoolType(res.At(last).Type()) {
+			if fc, isC := ret.Results[last].(*ssa.Const); isC && fc.Value != nil && fc.Value.String() == "false" {
+				continue // the companion of a false "found"
+			}
 		}
 		set[qz.prov(ret.Results[k], 1)] = true
 	}
